@@ -1,4 +1,974 @@
-From Coq Require Import List NArith Bool Lia Arith.
+(* C02: the wire encoder model (Model/WireOut.v) round-trips through the independent
+   reference parser (Model/Rfc1035.v). *)
+From Coq Require Import List NArith ZArith Bool Lia Arith PeanoNat.
+From Coq Require Import ZifyBool ZifyNat ZifyN.
 From Mdns Require Import Res Bytes Utf8 Rec Wire WireOut Rfc1035 C02Spec.
 Import ListNotations.
 Open Scope N_scope.
+
+Local Arguments N.add : simpl never.
+Local Arguments N.sub : simpl never.
+Local Arguments N.mul : simpl never.
+Local Arguments N.div : simpl never.
+Local Arguments N.modulo : simpl never.
+Local Arguments N.eqb : simpl never.
+Local Arguments N.ltb : simpl never.
+Local Arguments N.leb : simpl never.
+Local Arguments N.land : simpl never.
+Local Arguments N.lor : simpl never.
+Local Arguments N.of_nat : simpl never.
+Local Arguments N.to_nat : simpl never.
+
+(* ------------------------------------------------------------------------------------ *)
+(* blen                                                                                  *)
+(* ------------------------------------------------------------------------------------ *)
+
+Lemma blen_app a b : blen (a ++ b) = blen a + blen b.
+Proof. unfold blen. rewrite app_length. lia. Qed.
+
+Lemma blen_cons x a : blen (x :: a) = 1 + blen a.
+Proof. unfold blen. cbn [length]. lia. Qed.
+
+Lemma blen_nil : blen [] = 0.
+Proof. reflexivity. Qed.
+
+Lemma blen_u16 v : blen (u16_bytes v) = 2.
+Proof. reflexivity. Qed.
+
+Lemma blen_u32 v : blen (u32_bytes v) = 4.
+Proof. reflexivity. Qed.
+
+Lemma to_nat_blen a : N.to_nat (blen a) = length a.
+Proof. unfold blen. apply Nat2N.id. Qed.
+
+Global Hint Rewrite blen_app blen_cons blen_nil blen_u16 blen_u32 : blen.
+
+Ltac blen_norm := autorewrite with blen in *.
+
+(* ------------------------------------------------------------------------------------ *)
+(* 1. Reference reader: stability under appended bytes, fuel irrelevance                 *)
+(* ------------------------------------------------------------------------------------ *)
+
+Lemma run_app fuel : forall rest off x fuel',
+  run fuel rest off <> RunBad -> (fuel <= fuel')%nat ->
+  run fuel' (rest ++ x) off = run fuel rest off.
+Proof.
+  induction fuel as [|f IH]; intros rest off x fuel' Hnb Hle; [cbn in Hnb; congruence|].
+  destruct fuel' as [|f']; [lia|].
+  destruct rest as [|l tl]; [cbn in Hnb; congruence|].
+  cbn [run app] in *.
+  destruct (l =? 0); [reflexivity|].
+  destruct (l <? 64).
+  - destruct (Nat.ltb (length tl) (N.to_nat l)) eqn:E; [congruence|].
+    apply Nat.ltb_ge in E.
+    assert (E' : Nat.ltb (length (tl ++ x)) (N.to_nat l) = false).
+    { apply Nat.ltb_ge. rewrite app_length. lia. }
+    rewrite E'.
+    rewrite skipn_app, firstn_app.
+    replace (N.to_nat l - length tl)%nat with O by lia.
+    cbn [skipn firstn]. rewrite app_nil_r.
+    rewrite (IH (skipn (N.to_nat l) tl) (off + 1 + l) x f'); [reflexivity| |lia].
+    destruct (run f (skipn (N.to_nat l) tl) (off + 1 + l)); congruence.
+  - destruct (192 <=? l); [|congruence].
+    destruct tl as [|b1 tl']; [congruence|]. reflexivity.
+Qed.
+
+Lemma run_fuel fuel fuel' rest off :
+  run fuel rest off <> RunBad -> (fuel <= fuel')%nat ->
+  run fuel' rest off = run fuel rest off.
+Proof.
+  intros H1 H2. rewrite <- (app_nil_r rest) at 1. apply run_app; assumption.
+Qed.
+
+Lemma skipn_app_le {A} n (d x : list A) :
+  (n <= length d)%nat -> skipn n (d ++ x) = skipn n d ++ x.
+Proof.
+  intros H. rewrite skipn_app. replace (n - length d)%nat with O by lia. reflexivity.
+Qed.
+
+Lemma ref_name_from_app j : forall d off lim r x j',
+  ref_name_from j d off lim = Some r -> (j <= j')%nat ->
+  ref_name_from j' (d ++ x) off lim = Some r.
+Proof.
+  induction j as [|j IH]; intros d off lim r x j' H Hle; [discriminate|].
+  destruct j' as [|j']; [lia|].
+  cbn [ref_name_from] in *.
+  destruct (Nat.le_gt_cases (N.to_nat off) (length d)) as [Hin|Hout].
+  2:{ rewrite skipn_all2 in H by lia. cbn in H. discriminate. }
+  rewrite (skipn_app_le _ _ _ Hin).
+  set (rest := skipn (N.to_nat off) d) in *.
+  assert (Hrun : run (S (length (rest ++ x))) (rest ++ x) off = run (S (length rest)) rest off).
+  { apply run_app.
+    - destruct (run (S (length rest)) rest off); congruence.
+    - rewrite app_length. lia. }
+  rewrite Hrun.
+  destruct (run (S (length rest)) rest off) as [ls n|ls n t|]; [exact H| |discriminate].
+  destruct (lim <=? t); [discriminate|].
+  destruct (ref_name_from j d t t) as [[ls' n']|] eqn:E; [|discriminate].
+  rewrite (IH d t t (ls', n') x j' E) by lia. exact H.
+Qed.
+
+Lemma ref_name_app d x off r : ref_name d off = Some r -> ref_name (d ++ x) off = Some r.
+Proof.
+  unfold ref_name. intros H. apply ref_name_from_app with (j := S (length d)); [exact H|].
+  rewrite app_length. lia.
+Qed.
+
+Lemma nth_byte_stable d x off v : nth_byte d off = Some v -> nth_byte (d ++ x) off = Some v.
+Proof.
+  unfold nth_byte. intros H. rewrite nth_error_app1; [exact H|].
+  apply nth_error_Some. congruence.
+Qed.
+
+Lemma ref_u16_stable d x off v : ref_u16 d off = Some v -> ref_u16 (d ++ x) off = Some v.
+Proof.
+  unfold ref_u16. intros H.
+  destruct (nth_byte d off) as [a|] eqn:Ea; [|discriminate].
+  destruct (nth_byte d (off + 1)) as [b|] eqn:Eb; [|discriminate].
+  rewrite (nth_byte_stable _ x _ _ Ea), (nth_byte_stable _ x _ _ Eb). exact H.
+Qed.
+
+Lemma ref_u32_stable d x off v : ref_u32 d off = Some v -> ref_u32 (d ++ x) off = Some v.
+Proof.
+  unfold ref_u32. intros H.
+  destruct (ref_u16 d off) as [a|] eqn:Ea; [|discriminate].
+  destruct (ref_u16 d (off + 2)) as [b|] eqn:Eb; [|discriminate].
+  rewrite (ref_u16_stable _ x _ _ Ea), (ref_u16_stable _ x _ _ Eb). exact H.
+Qed.
+
+Lemma ref_bytes_stable d x off n v :
+  ref_bytes d off n = Some v -> ref_bytes (d ++ x) off n = Some v.
+Proof.
+  unfold ref_bytes. intros H.
+  destruct (off + n <=? N.of_nat (length d)) eqn:E; [|discriminate].
+  apply N.leb_le in E.
+  assert (E' : off + n <=? N.of_nat (length (d ++ x)) = true).
+  { apply N.leb_le. rewrite app_length. lia. }
+  rewrite E'. rewrite skipn_app_le by lia.
+  rewrite firstn_app.
+  replace (N.to_nat n - length (skipn (N.to_nat off) d))%nat with O
+    by (rewrite skipn_length; lia).
+  cbn [firstn]. rewrite app_nil_r. exact H.
+Qed.
+
+Lemma ref_rdata_at_stable d x ty off n v :
+  ref_rdata_at d ty off n = Some v -> ref_rdata_at (d ++ x) ty off n = Some v.
+Proof.
+  unfold ref_rdata_at. intros H.
+  destruct ((ty =? 12) || (ty =? 5)).
+  - destruct (ref_name d off) as [[ls o]|] eqn:E; [|discriminate].
+    rewrite (ref_name_app _ x _ _ E). exact H.
+  - destruct (ty =? 33).
+    + destruct (ref_u16 d off) as [p|] eqn:E1; [|discriminate].
+      destruct (ref_u16 d (off + 2)) as [w|] eqn:E2; [|discriminate].
+      destruct (ref_u16 d (off + 4)) as [po|] eqn:E3; [|discriminate].
+      destruct (ref_name d (off + 6)) as [[ls o]|] eqn:E4; [|discriminate].
+      rewrite (ref_u16_stable _ x _ _ E1), (ref_u16_stable _ x _ _ E2),
+        (ref_u16_stable _ x _ _ E3), (ref_name_app _ x _ _ E4). exact H.
+    + destruct (ref_bytes d off n) as [b|] eqn:E; [|discriminate].
+      rewrite (ref_bytes_stable _ x _ _ _ E). exact H.
+Qed.
+
+Lemma ref_record_stable d x off v :
+  ref_record d off = Some v -> ref_record (d ++ x) off = Some v.
+Proof.
+  unfold ref_record. intros H.
+  destruct (ref_name d off) as [[ls o]|] eqn:E; [|discriminate].
+  rewrite (ref_name_app _ x _ _ E).
+  destruct (ref_u16 d o) as [ty|] eqn:E1; [|discriminate].
+  destruct (ref_u16 d (o + 2)) as [cl|] eqn:E2; [|discriminate].
+  destruct (ref_u32 d (o + 4)) as [ttl|] eqn:E3; [|discriminate].
+  destruct (ref_u16 d (o + 8)) as [rdl|] eqn:E4; [|discriminate].
+  rewrite (ref_u16_stable _ x _ _ E1), (ref_u16_stable _ x _ _ E2),
+    (ref_u32_stable _ x _ _ E3), (ref_u16_stable _ x _ _ E4).
+  destruct (ref_rdata_at d ty (o + 10) rdl) as [rd|] eqn:E5; [|discriminate].
+  rewrite (ref_rdata_at_stable _ x _ _ _ _ E5). exact H.
+Qed.
+
+Lemma ref_question_stable d x off v :
+  ref_question d off = Some v -> ref_question (d ++ x) off = Some v.
+Proof.
+  unfold ref_question. intros H.
+  destruct (ref_name d off) as [[ls o]|] eqn:E; [|discriminate].
+  rewrite (ref_name_app _ x _ _ E).
+  destruct (ref_u16 d o) as [ty|] eqn:E1; [|discriminate].
+  destruct (ref_u16 d (o + 2)) as [cl|] eqn:E2; [|discriminate].
+  rewrite (ref_u16_stable _ x _ _ E1), (ref_u16_stable _ x _ _ E2). exact H.
+Qed.
+
+Lemma ref_records_stable n : forall d x off v,
+  ref_records n d off = Some v -> ref_records n (d ++ x) off = Some v.
+Proof.
+  induction n as [|n IH]; intros d x off v H; [exact H|].
+  cbn [ref_records] in *.
+  destruct (ref_record d off) as [[r o]|] eqn:E; [|discriminate].
+  rewrite (ref_record_stable _ x _ _ E).
+  destruct (ref_records n d o) as [[rs o']|] eqn:E2; [|discriminate].
+  rewrite (IH _ x _ _ E2). exact H.
+Qed.
+
+Lemma ref_questions_stable n : forall d x off v,
+  ref_questions n d off = Some v -> ref_questions n (d ++ x) off = Some v.
+Proof.
+  induction n as [|n IH]; intros d x off v H; [exact H|].
+  cbn [ref_questions] in *.
+  destruct (ref_question d off) as [[r o]|] eqn:E; [|discriminate].
+  rewrite (ref_question_stable _ x _ _ E).
+  destruct (ref_questions n d o) as [[rs o']|] eqn:E2; [|discriminate].
+  rewrite (IH _ x _ _ E2). exact H.
+Qed.
+
+(* appending one more entry at the end *)
+Lemma ref_records_snoc n : forall d off l o r o',
+  ref_records n d off = Some (l, o) -> ref_record d o = Some (r, o') ->
+  ref_records (S n) d off = Some (l ++ [r], o').
+Proof.
+  induction n as [|n IH]; intros d off l o r o' H1 H2.
+  - cbn in H1. inversion H1; subst. cbn [ref_records]. rewrite H2. reflexivity.
+  - cbn [ref_records] in H1.
+    destruct (ref_record d off) as [[r1 o1]|] eqn:E; [|discriminate].
+    destruct (ref_records n d o1) as [[rs o2]|] eqn:E2; [|discriminate].
+    inversion H1; subst.
+    specialize (IH _ _ _ _ _ _ E2 H2).
+    change (ref_records (S (S n)) d off) with
+      (match ref_record d off with
+       | Some (r, o) =>
+         match ref_records (S n) d o with Some (rs, o') => Some (r :: rs, o') | None => None end
+       | None => None end).
+    rewrite E, IH. reflexivity.
+Qed.
+
+Lemma ref_questions_snoc n : forall d off l o r o',
+  ref_questions n d off = Some (l, o) -> ref_question d o = Some (r, o') ->
+  ref_questions (S n) d off = Some (l ++ [r], o').
+Proof.
+  induction n as [|n IH]; intros d off l o r o' H1 H2.
+  - cbn in H1. inversion H1; subst. cbn [ref_questions]. rewrite H2. reflexivity.
+  - cbn [ref_questions] in H1.
+    destruct (ref_question d off) as [[r1 o1]|] eqn:E; [|discriminate].
+    destruct (ref_questions n d o1) as [[rs o2]|] eqn:E2; [|discriminate].
+    inversion H1; subst.
+    specialize (IH _ _ _ _ _ _ E2 H2).
+    change (ref_questions (S (S n)) d off) with
+      (match ref_question d off with
+       | Some (r, o) =>
+         match ref_questions (S n) d o with Some (rs, o') => Some (r :: rs, o') | None => None end
+       | None => None end).
+    rewrite E, IH. reflexivity.
+Qed.
+
+(* ------------------------------------------------------------------------------------ *)
+(* The reference reader consumes at least 1 byte per name, 5 per question, 11 per record *)
+(* ------------------------------------------------------------------------------------ *)
+
+Lemma run_next_end fuel : forall rest off ls n, run fuel rest off = RunEnd ls n -> off + 1 <= n.
+Proof.
+  induction fuel as [|f IH]; intros rest off ls n H; [discriminate|].
+  destruct rest as [|l tl]; [discriminate|]. cbn [run] in H.
+  destruct (l =? 0); [inversion H; lia|].
+  destruct (l <? 64).
+  - destruct (Nat.ltb (length tl) (N.to_nat l)); [discriminate|].
+    destruct (run f (skipn (N.to_nat l) tl) (off + 1 + l)) as [ls' n'|ls' n' t|] eqn:E;
+      try discriminate.
+    inversion H; subst. apply IH in E. lia.
+  - destruct (192 <=? l); [|discriminate]. destruct tl; discriminate.
+Qed.
+
+Lemma run_next_ptr fuel : forall rest off ls n t, run fuel rest off = RunPtr ls n t -> off + 1 <= n.
+Proof.
+  induction fuel as [|f IH]; intros rest off ls n t H; [discriminate|].
+  destruct rest as [|l tl]; [discriminate|]. cbn [run] in H.
+  destruct (l =? 0); [discriminate|].
+  destruct (l <? 64).
+  - destruct (Nat.ltb (length tl) (N.to_nat l)); [discriminate|].
+    destruct (run f (skipn (N.to_nat l) tl) (off + 1 + l)) as [ls' n'|ls' n' t'|] eqn:E;
+      try discriminate.
+    inversion H; subst. apply IH in E. lia.
+  - destruct (192 <=? l); [|discriminate]. destruct tl; [discriminate|]. inversion H; lia.
+Qed.
+
+Lemma ref_name_next d off ls o : ref_name d off = Some (ls, o) -> off + 1 <= o.
+Proof.
+  unfold ref_name. cbn [ref_name_from].
+  destruct (run _ _ off) as [ls' n|ls' n t|] eqn:E; [| |discriminate].
+  - intros H; inversion H; subst. eapply run_next_end; eauto.
+  - destruct (off <=? t); [discriminate|].
+    destruct (ref_name_from _ d t t) as [[ls2 n2]|]; [|discriminate].
+    intros H; inversion H; subst. eapply run_next_ptr; eauto.
+Qed.
+
+Lemma ref_record_next d off r o : ref_record d off = Some (r, o) -> off + 11 <= o.
+Proof.
+  unfold ref_record.
+  destruct (ref_name d off) as [[ls o1]|] eqn:E; [|discriminate].
+  apply ref_name_next in E.
+  destruct (ref_u16 d o1); [|discriminate].
+  destruct (ref_u16 d (o1 + 2)); [|discriminate].
+  destruct (ref_u32 d (o1 + 4)); [|discriminate].
+  destruct (ref_u16 d (o1 + 8)); [|discriminate].
+  destruct (ref_rdata_at _ _ _ _); [|discriminate].
+  intros H; inversion H; lia.
+Qed.
+
+Lemma ref_question_next d off r o : ref_question d off = Some (r, o) -> off + 5 <= o.
+Proof.
+  unfold ref_question.
+  destruct (ref_name d off) as [[ls o1]|] eqn:E; [|discriminate].
+  apply ref_name_next in E.
+  destruct (ref_u16 d o1); [|discriminate].
+  destruct (ref_u16 d (o1 + 2)); [|discriminate].
+  intros H; inversion H; lia.
+Qed.
+
+Lemma ref_records_next n : forall d off l o,
+  ref_records n d off = Some (l, o) -> off + 11 * N.of_nat n <= o /\ length l = n.
+Proof.
+  induction n as [|n IH]; intros d off l o H.
+  - cbn in H. inversion H; subst. split; [lia|reflexivity].
+  - cbn [ref_records] in H.
+    destruct (ref_record d off) as [[r o1]|] eqn:E; [|discriminate].
+    destruct (ref_records n d o1) as [[rs o2]|] eqn:E2; [|discriminate].
+    inversion H; subst. apply ref_record_next in E. apply IH in E2. cbn [length]. lia.
+Qed.
+
+Lemma ref_questions_next n : forall d off l o,
+  ref_questions n d off = Some (l, o) -> off + 5 * N.of_nat n <= o /\ length l = n.
+Proof.
+  induction n as [|n IH]; intros d off l o H.
+  - cbn in H. inversion H; subst. split; [lia|reflexivity].
+  - cbn [ref_questions] in H.
+    destruct (ref_question d off) as [[r o1]|] eqn:E; [|discriminate].
+    destruct (ref_questions n d o1) as [[rs o2]|] eqn:E2; [|discriminate].
+    inversion H; subst. apply ref_question_next in E. apply IH in E2. cbn [length]. lia.
+Qed.
+
+(* ------------------------------------------------------------------------------------ *)
+(* Decidable equalities                                                                  *)
+(* ------------------------------------------------------------------------------------ *)
+
+Lemma labels_beq_eq a : forall b, labels_beq a b = true <-> a = b.
+Proof.
+  induction a as [|x a IH]; destruct b as [|y b]; cbn [labels_beq]; split; intros H;
+    try reflexivity; try discriminate.
+  - apply andb_true_iff in H as [H1 H2]. apply beq_eq in H1. apply IH in H2. congruence.
+  - inversion H; subst. rewrite beq_refl. apply IH. reflexivity.
+Qed.
+
+Lemma labels_beq_refl a : labels_beq a a = true.
+Proof. apply labels_beq_eq. reflexivity. Qed.
+
+Lemma ref_rdata_beq_refl a : ref_rdata_beq a a = true.
+Proof.
+  destruct a; cbn [ref_rdata_beq]; rewrite ?beq_refl, ?labels_beq_refl, ?N.eqb_refl; reflexivity.
+Qed.
+
+Lemma ref_rr_beq_refl a : ref_rr_beq a a = true.
+Proof.
+  unfold ref_rr_beq. rewrite labels_beq_refl, !N.eqb_refl, ref_rdata_beq_refl. reflexivity.
+Qed.
+
+Lemma ref_q_beq_refl a : ref_q_beq a a = true.
+Proof. unfold ref_q_beq. rewrite labels_beq_refl, !N.eqb_refl. reflexivity. Qed.
+
+Lemma list_beq_refl {A} (eqb : A -> A -> bool) :
+  (forall x, eqb x x = true) -> forall l, list_beq eqb l l = true.
+Proof.
+  intros Hr. induction l as [|x l IH]; cbn [list_beq]; [reflexivity|]. rewrite Hr, IH. reflexivity.
+Qed.
+
+Lemma is_subseq_tail {A} (eqb : A -> A -> bool) : forall b a x,
+  is_subseq eqb (x :: a) b = true -> is_subseq eqb a b = true.
+Proof.
+  induction b as [|z b IH]; intros a x H; [discriminate|].
+  cbn [is_subseq] in H.
+  assert (Hab : is_subseq eqb a b = true).
+  { destruct (eqb x z); [exact H|]. eapply IH; exact H. }
+  destruct a as [|y a]; [reflexivity|].
+  cbn [is_subseq]. destruct (eqb y z); [|exact Hab].
+  eapply IH; exact Hab.
+Qed.
+
+Lemma is_subseq_cons_r {A} (eqb : A -> A -> bool) a b y :
+  is_subseq eqb a b = true -> is_subseq eqb a (y :: b) = true.
+Proof.
+  intros H. destruct a as [|x a]; [reflexivity|].
+  cbn [is_subseq]. destruct (eqb x y); [|exact H]. eapply is_subseq_tail; exact H.
+Qed.
+
+Lemma is_subseq_cons_both {A} (eqb : A -> A -> bool) a b x :
+  eqb x x = true -> is_subseq eqb a b = true -> is_subseq eqb (x :: a) (x :: b) = true.
+Proof. intros Hr H. cbn [is_subseq]. rewrite Hr. exact H. Qed.
+
+Lemma is_subseq_nil {A} (eqb : A -> A -> bool) b : is_subseq eqb [] b = true.
+Proof. destruct b; reflexivity. Qed.
+
+(* ------------------------------------------------------------------------------------ *)
+(* Bit facts                                                                             *)
+(* ------------------------------------------------------------------------------------ *)
+
+Lemma lor_lt_pow2 a b n : a < 2 ^ n -> b < 2 ^ n -> N.lor a b < 2 ^ n.
+Proof.
+  intros Ha Hb.
+  destruct (N.eq_dec (N.lor a b) 0) as [E|E].
+  - rewrite E. destruct (2 ^ n) eqn:E2; [|lia]. apply N.pow_nonzero in E2; [contradiction|lia].
+  - apply N.log2_lt_pow2; [lia|].
+    rewrite N.log2_lor.
+    destruct (N.eq_dec a 0) as [Ea|Ea]; destruct (N.eq_dec b 0) as [Eb|Eb]; subst.
+    + exfalso. apply E. reflexivity.
+    + rewrite N.max_r by (cbn; lia). apply N.log2_lt_pow2; lia.
+    + rewrite N.max_l by (cbn; lia). apply N.log2_lt_pow2; lia.
+    + apply N.max_lub_lt; apply N.log2_lt_pow2; lia.
+Qed.
+
+Lemma lor_lt_65536 a b : a < 65536 -> b < 65536 -> N.lor a b < 65536.
+Proof. change 65536 with (2 ^ 16). apply lor_lt_pow2. Qed.
+
+Lemma lor_ptr off : off < 16384 -> N.lor off 49152 = off + 49152.
+Proof.
+  intros H.
+  assert (Hl : N.land off 49152 = 0).
+  { apply N.bits_inj_0. intros n. rewrite N.land_spec.
+    destruct (N.lt_ge_cases n 14) as [Hn|Hn].
+    - change 49152 with (N.shiftl 3 14). rewrite N.shiftl_spec_low by exact Hn.
+      apply andb_false_r.
+    - destruct (N.eq_dec off 0) as [E|E]; [subst; rewrite N.bits_0; reflexivity|].
+      rewrite (N.bits_above_log2 off n); [reflexivity|].
+      assert (N.log2 off < 14) by (apply N.log2_lt_pow2; [lia|exact H]). lia. }
+  rewrite <- N.lxor_lor by exact Hl. symmetry. apply N.add_nocarry_lxor. exact Hl.
+Qed.
+
+(* ------------------------------------------------------------------------------------ *)
+(* Fixed-width fields: what was written is what is read                                  *)
+(* ------------------------------------------------------------------------------------ *)
+
+Ltac Zify.zify_post_hook ::= Z.div_mod_to_equations.
+
+Lemma u16_join v : v < 65536 -> (v / 256) mod 256 * 256 + v mod 256 = v.
+Proof. intros H. lia. Qed.
+
+Lemma u32_join v : v < 4294967296 ->
+  ((v / 16777216) mod 256 * 256 + (v / 65536) mod 256) * 65536
+  + ((v / 256) mod 256 * 256 + v mod 256) = v.
+Proof. intros H. lia. Qed.
+
+Lemma nth_byte_shift a b k : nth_byte (a ++ b) (blen a + k) = nth_byte b k.
+Proof.
+  unfold nth_byte, blen. rewrite nth_error_app2 by lia. f_equal. lia.
+Qed.
+
+Lemma ref_u16_shift a b k : ref_u16 (a ++ b) (blen a + k) = ref_u16 b k.
+Proof.
+  unfold ref_u16. rewrite <- N.add_assoc, !nth_byte_shift. reflexivity.
+Qed.
+
+Lemma ref_u32_shift a b k : ref_u32 (a ++ b) (blen a + k) = ref_u32 b k.
+Proof.
+  unfold ref_u32. rewrite <- N.add_assoc, !ref_u16_shift. reflexivity.
+Qed.
+
+Lemma ref_u16_at0 b0 b1 rest : ref_u16 (b0 :: b1 :: rest) 0 = Some (b0 * 256 + b1).
+Proof. reflexivity. Qed.
+
+Lemma ref_u32_at0 b0 b1 b2 b3 rest :
+  ref_u32 (b0 :: b1 :: b2 :: b3 :: rest) 0 = Some ((b0 * 256 + b1) * 65536 + (b2 * 256 + b3)).
+Proof. reflexivity. Qed.
+
+Lemma ref_u16_mid pre v post :
+  v < 65536 -> ref_u16 (pre ++ u16_bytes v ++ post) (blen pre) = Some v.
+Proof.
+  intros H. rewrite <- (N.add_0_r (blen pre)), ref_u16_shift.
+  unfold u16_bytes. cbn [app]. rewrite ref_u16_at0, u16_join by exact H. reflexivity.
+Qed.
+
+Lemma ref_u32_mid pre v post :
+  v < 4294967296 -> ref_u32 (pre ++ u32_bytes v ++ post) (blen pre) = Some v.
+Proof.
+  intros H. rewrite <- (N.add_0_r (blen pre)), ref_u32_shift.
+  unfold u32_bytes. cbn [app]. rewrite ref_u32_at0.
+  rewrite u32_join by exact H. reflexivity.
+Qed.
+
+Lemma ref_bytes_end pre b : ref_bytes (pre ++ b) (blen pre) (blen b) = Some b.
+Proof.
+  unfold ref_bytes.
+  assert (E : blen pre + blen b <=? N.of_nat (length (pre ++ b)) = true).
+  { apply N.leb_le. rewrite app_length. unfold blen. lia. }
+  rewrite E. rewrite !to_nat_blen.
+  rewrite skipn_app, skipn_all, Nat.sub_diag. cbn [skipn app].
+  rewrite firstn_all. reflexivity.
+Qed.
+
+(* the ten fixed bytes of a record *)
+Lemma fixed_fields pre ty cl ttl rdl rd :
+  ty < 65536 -> cl < 65536 -> ttl < 4294967296 -> rdl < 65536 ->
+  let d := pre ++ (u16_bytes ty ++ u16_bytes cl ++ u32_bytes ttl) ++ u16_bytes rdl ++ rd in
+  ref_u16 d (blen pre) = Some ty /\ ref_u16 d (blen pre + 2) = Some cl
+  /\ ref_u32 d (blen pre + 4) = Some ttl /\ ref_u16 d (blen pre + 8) = Some rdl.
+Proof.
+  intros H1 H2 H3 H4 d. subst d. rewrite <- !app_assoc. repeat split.
+  - apply ref_u16_mid. exact H1.
+  - replace (blen pre + 2) with (blen (pre ++ u16_bytes ty)) by (blen_norm; lia).
+    rewrite (app_assoc pre). apply ref_u16_mid. exact H2.
+  - replace (blen pre + 4) with (blen ((pre ++ u16_bytes ty) ++ u16_bytes cl)) by (blen_norm; lia).
+    rewrite (app_assoc pre), (app_assoc (pre ++ _)). apply ref_u32_mid. exact H3.
+  - replace (blen pre + 8) with (blen (((pre ++ u16_bytes ty) ++ u16_bytes cl) ++ u32_bytes ttl))
+      by (blen_norm; lia).
+    rewrite (app_assoc pre), (app_assoc (pre ++ _)), (app_assoc ((pre ++ _) ++ _)).
+    apply ref_u16_mid. exact H4.
+Qed.
+
+(* ------------------------------------------------------------------------------------ *)
+(* 2/3. write_labels: an equivalent writer that consults a fixed table                   *)
+(* ------------------------------------------------------------------------------------ *)
+
+(* bytes written and table entries created (newest first) *)
+Fixpoint enc (t : table) (pos : N) (ls : labels) : bytes * table :=
+  match ls with
+  | [] => ([0], [])
+  | l :: rest =>
+    match lookup ls t with
+    | Some off => (u16_bytes (N.lor off 49152), [])
+    | None =>
+      let r := enc t (pos + 1 + blen l) rest in
+      (blen l :: l ++ fst r, snd r ++ [(ls, pos mod 65536)])
+    end
+  end.
+
+Lemma labels_beq_length a : forall b, labels_beq a b = true -> length a = length b.
+Proof. intros b H. apply labels_beq_eq in H. congruence. Qed.
+
+Lemma lookup_skip k pend t :
+  (forall k' v, In (k', v) pend -> length k <> length k') ->
+  lookup k (pend ++ t) = lookup k t.
+Proof.
+  induction pend as [|[k' v] pend IH]; intros H; [reflexivity|].
+  cbn [app lookup].
+  destruct (labels_beq k k') eqn:E.
+  - apply labels_beq_length in E. exfalso. apply (H k' v); [left; reflexivity|exact E].
+  - apply IH. intros k2 v2 Hin. apply (H k2 v2). right. exact Hin.
+Qed.
+
+Lemma lookup_In k t v : lookup k t = Some v -> In (k, v) t.
+Proof.
+  induction t as [|[k' v'] t IH]; cbn [lookup]; intros H; [discriminate|].
+  destruct (labels_beq k k') eqn:E.
+  - apply labels_beq_eq in E. inversion H; subst. left. reflexivity.
+  - right. apply IH. exact H.
+Qed.
+
+Lemma label_ok_inv l : label_ok l = true -> 1 <= blen l /\ blen l <= 63.
+Proof.
+  unfold label_ok. intros H. apply andb_true_iff in H as [H _].
+  apply andb_true_iff in H as [H1 H2]. apply N.leb_le in H1, H2. split; assumption.
+Qed.
+
+Lemma write_labels_enc : forall ls pend t pos,
+  forallb label_ok ls = true ->
+  (forall k v, In (k, v) pend -> (length ls < length k)%nat) ->
+  write_labels (pend ++ t) pos ls
+  = Ok (fst (enc t pos ls), snd (enc t pos ls) ++ pend ++ t).
+Proof.
+  induction ls as [|l rest IH]; intros pend t pos Hok Hpend; [reflexivity|].
+  cbn [forallb] in Hok. apply andb_true_iff in Hok as [Hl Hrest].
+  apply label_ok_inv in Hl.
+  cbn [write_labels enc].
+  rewrite lookup_skip.
+  2:{ intros k' v Hin. apply Hpend in Hin. lia. }
+  destruct (lookup (l :: rest) t) as [off|]; [reflexivity|].
+  replace (64 <=? blen l) with false by (symmetry; apply N.leb_gt; lia).
+  change (((l :: rest, pos mod 65536) :: pend ++ t)) with
+    (((l :: rest, pos mod 65536) :: pend) ++ t).
+  rewrite IH; [|exact Hrest|].
+  - cbn [bind fst snd]. rewrite <- app_assoc. reflexivity.
+  - intros k v [Hin|Hin].
+    + inversion Hin; subst. cbn [length]. lia.
+    + apply Hpend in Hin. cbn [length] in Hin. lia.
+Qed.
+
+Lemma write_labels_enc0 ls t pos :
+  forallb label_ok ls = true ->
+  write_labels t pos ls = Ok (fst (enc t pos ls), snd (enc t pos ls) ++ t).
+Proof.
+  intros H. apply (write_labels_enc ls [] t pos H). intros k v [].
+Qed.
+
+Lemma wire_len_nil : wire_len [] = 1.
+Proof. reflexivity. Qed.
+
+Lemma wire_len_cons l rest : wire_len (l :: rest) = 1 + blen l + wire_len rest.
+Proof. reflexivity. Qed.
+
+Lemma wire_len_pos ls : 1 <= wire_len ls.
+Proof. destruct ls; [rewrite wire_len_nil|rewrite wire_len_cons]; lia. Qed.
+
+Lemma enc_len : forall ls t pos,
+  1 <= blen (fst (enc t pos ls)) /\ blen (fst (enc t pos ls)) <= wire_len ls.
+Proof.
+  induction ls as [|l rest IH]; intros t pos.
+  - cbn [enc fst]. rewrite wire_len_nil. blen_norm. lia.
+  - cbn [enc]. rewrite wire_len_cons. pose proof (wire_len_pos rest).
+    destruct (lookup (l :: rest) t).
+    + cbn [fst]. rewrite blen_u16. lia.
+    + cbn [fst]. specialize (IH t (pos + 1 + blen l)). blen_norm. lia.
+Qed.
+
+Lemma firstn_exact {A} (a b : list A) : firstn (length a) (a ++ b) = a.
+Proof. rewrite firstn_app, firstn_all, Nat.sub_diag. cbn [firstn]. apply app_nil_r. Qed.
+
+Lemma skipn_exact {A} (a b : list A) : skipn (length a) (a ++ b) = b.
+Proof. rewrite skipn_app, skipn_all, Nat.sub_diag. reflexivity. Qed.
+
+Lemma enc_run : forall ls t pos x fuel,
+  forallb label_ok ls = true ->
+  (forall k off, lookup k t = Some off -> off < 16384) ->
+  (length (fst (enc t pos ls) ++ x) < fuel)%nat ->
+  run fuel (fst (enc t pos ls) ++ x) pos = RunEnd ls (pos + blen (fst (enc t pos ls)))
+  \/ exists ls1 ls2 off, ls = ls1 ++ ls2 /\ lookup ls2 t = Some off /\
+       run fuel (fst (enc t pos ls) ++ x) pos
+       = RunPtr ls1 (pos + blen (fst (enc t pos ls))) off.
+Proof.
+  induction ls as [|l rest IH]; intros t pos x fuel Hok Hlt Hfuel.
+  - cbn [enc fst app] in *. destruct fuel as [|f]; [lia|]. cbn [run].
+    rewrite N.eqb_refl. left. blen_norm. f_equal.
+  - cbn [forallb] in Hok. apply andb_true_iff in Hok as [Hl Hrest].
+    apply label_ok_inv in Hl.
+    cbn [enc] in *. destruct (lookup (l :: rest) t) as [off|] eqn:E.
+    + cbn [fst] in *. right. exists [], (l :: rest), off.
+      split; [reflexivity|]. split; [exact E|].
+      pose proof (Hlt _ _ E) as Hoff.
+      rewrite lor_ptr by exact Hoff. unfold u16_bytes. cbn [app].
+      destruct fuel as [|f]; [lia|]. cbn [run].
+      assert (Hhi : ((off + 49152) / 256) mod 256 = 192 + off / 256) by lia.
+      assert (Hlo : (192 + off / 256 - 192) * 256 + (off + 49152) mod 256 = off) by lia.
+      rewrite Hhi.
+      replace (192 + off / 256 =? 0) with false by (symmetry; apply N.eqb_neq; lia).
+      replace (192 + off / 256 <? 64) with false by (symmetry; apply N.ltb_ge; lia).
+      replace (192 <=? 192 + off / 256) with true by (symmetry; apply N.leb_le; lia).
+      rewrite Hlo. blen_norm. f_equal.
+    + cbn [fst] in *. cbn [app] in *.
+      destruct fuel as [|f]; [lia|]. cbn [run].
+      replace (blen l =? 0) with false by (symmetry; apply N.eqb_neq; lia).
+      replace (blen l <? 64) with true by (symmetry; apply N.ltb_lt; lia).
+      rewrite to_nat_blen. rewrite <- app_assoc.
+      replace (Nat.ltb (length (l ++ fst (enc t (pos + 1 + blen l) rest) ++ x)) (length l))
+        with false by (symmetry; apply Nat.ltb_ge; rewrite app_length; lia).
+      rewrite skipn_exact, firstn_exact.
+      cbn [length] in Hfuel. rewrite <- app_assoc, app_length in Hfuel.
+      destruct (IH t (pos + 1 + blen l) x f Hrest Hlt) as [H|(ls1 & ls2 & off & H1 & H2 & H3)];
+        [lia| |].
+      * left. rewrite H. f_equal. blen_norm. lia.
+      * right. exists (l :: ls1), ls2, off. split; [cbn [app]; congruence|].
+        split; [exact H2|]. rewrite H3. f_equal. blen_norm. lia.
+Qed.
+
+(* ---- the compression-table invariant, relative to the bytes `d` written so far -------- *)
+Definition tbl_ok (t : table) (d : bytes) : Prop :=
+  forall k off, In (k, off) t -> off < blen d /\ exists n, ref_name d off = Some (k, n).
+
+Lemma tbl_ok_nil d : tbl_ok [] d.
+Proof. intros k off []. Qed.
+
+Lemma tbl_ok_app t d x : tbl_ok t d -> tbl_ok t (d ++ x).
+Proof.
+  intros H k off Hin. destruct (H k off Hin) as [H1 [n H2]]. split.
+  - blen_norm. lia.
+  - exists n. apply ref_name_app. exact H2.
+Qed.
+
+Lemma tbl_ok_union a b d : tbl_ok a d -> tbl_ok b d -> tbl_ok (a ++ b) d.
+Proof.
+  intros Ha Hb k off Hin. apply in_app_or in Hin as [Hin|Hin]; [apply Ha|apply Hb]; exact Hin.
+Qed.
+
+Lemma tbl_ok_filter f t d : tbl_ok t d -> tbl_ok (filter f t) d.
+Proof. intros H k off Hin. apply filter_In in Hin as [Hin _]. apply H. exact Hin. Qed.
+
+Lemma skipn_blen d x : skipn (N.to_nat (blen d)) (d ++ x) = x.
+Proof. rewrite to_nat_blen. apply skipn_exact. Qed.
+
+Lemma enc_read t d ls x :
+  tbl_ok t d -> blen d <= 16384 -> forallb label_ok ls = true ->
+  ref_name (d ++ fst (enc t (blen d) ls) ++ x) (blen d)
+  = Some (ls, blen d + blen (fst (enc t (blen d) ls))).
+Proof.
+  intros Ht Hd Hok.
+  assert (Hlt : forall k off, lookup k t = Some off -> off < 16384).
+  { intros k off H. apply lookup_In in H. apply Ht in H. lia. }
+  set (bs := fst (enc t (blen d) ls)).
+  unfold ref_name. cbn [ref_name_from]. rewrite skipn_blen.
+  assert (Hr := enc_run ls t (blen d) x (S (length (bs ++ x))) Hok Hlt).
+  fold bs in Hr.
+  destruct Hr as [H|(ls1 & ls2 & off & H1 & H2 & H3)]; [lia| |].
+  - rewrite H. reflexivity.
+  - rewrite H3. apply lookup_In in H2. destruct (Ht _ _ H2) as [Ho [n Hn]].
+    replace (blen d <=? off) with false by (symmetry; apply N.leb_gt; lia).
+    unfold ref_name in Hn.
+    pose proof (enc_len ls t (blen d)) as [Hb _]. fold bs in Hb.
+    rewrite (ref_name_from_app _ _ _ _ _ (bs ++ x) (length (d ++ bs ++ x)) Hn).
+    + rewrite H1. reflexivity.
+    + rewrite !app_length. unfold blen in Hb. lia.
+Qed.
+
+Lemma enc_entries : forall ls t d,
+  tbl_ok t d -> forallb label_ok ls = true -> blen d + wire_len ls <= 16384 ->
+  tbl_ok (snd (enc t (blen d) ls)) (d ++ fst (enc t (blen d) ls)).
+Proof.
+  induction ls as [|l rest IH]; intros t d Ht Hok Hsz.
+  - cbn [enc snd]. apply tbl_ok_nil.
+  - pose proof (wire_len_pos (l :: rest)) as Hwl.
+    assert (Hread := enc_read t d (l :: rest) [] Ht ltac:(lia) Hok).
+    rewrite app_nil_r in Hread.
+    pose proof (enc_len (l :: rest) t (blen d)) as [Hb1 Hb2].
+    rewrite wire_len_cons in Hsz.
+    cbn [forallb] in Hok. apply andb_true_iff in Hok as [Hl Hrest].
+    cbn [enc] in *. destruct (lookup (l :: rest) t) as [off|]; [apply tbl_ok_nil|].
+    cbn [fst snd] in *.
+    apply tbl_ok_union.
+    + set (d1 := d ++ blen l :: l).
+      assert (Hd1 : blen d1 = blen d + 1 + blen l) by (subst d1; blen_norm; lia).
+      rewrite <- Hd1.
+      replace (d ++ blen l :: l ++ fst (enc t (blen d1) rest))
+        with (d1 ++ fst (enc t (blen d1) rest))
+        by (subst d1; rewrite <- app_assoc; reflexivity).
+      apply IH; [apply tbl_ok_app; exact Ht|exact Hrest|lia].
+    + intros k off [Hin|[]]. inversion Hin; subst.
+      rewrite N.mod_small by lia. split.
+      * blen_norm. blen_norm. lia.
+      * eexists. exact Hread.
+Qed.
+
+(* (i) correctness of write_labels *)
+Theorem write_labels_correct t d ls :
+  tbl_ok t d -> forallb label_ok ls = true -> blen d + wire_len ls <= 16384 ->
+  exists bs t', write_labels t (blen d) ls = Ok (bs, t')
+    /\ 1 <= blen bs /\ blen bs <= wire_len ls
+    /\ tbl_ok t' (d ++ bs)
+    /\ forall x, ref_name (d ++ bs ++ x) (blen d) = Some (ls, blen d + blen bs).
+Proof.
+  intros Ht Hok Hsz.
+  exists (fst (enc t (blen d) ls)), (snd (enc t (blen d) ls) ++ t).
+  pose proof (wire_len_pos ls) as Hwl.
+  split; [apply write_labels_enc0; exact Hok|].
+  split; [apply enc_len|]. split; [apply enc_len|].
+  split.
+  - apply tbl_ok_union; [apply enc_entries; assumption|apply tbl_ok_app; exact Ht].
+  - intros x. apply enc_read; [exact Ht|lia|exact Hok].
+Qed.
+
+Lemma write_labels_total t pos ls :
+  forallb label_ok ls = true -> exists r, write_labels t pos ls = Ok r.
+Proof. intros H. rewrite write_labels_enc0 by exact H. eauto. Qed.
+
+Lemma wf_name_inv name :
+  wf_name name = true ->
+  forallb label_ok (name_labels name) = true /\ wire_len (name_labels name) <= 255.
+Proof.
+  unfold wf_name. intros H. apply andb_true_iff in H as [H1 H2]. apply N.leb_le in H2.
+  split; assumption.
+Qed.
+
+Lemma write_name_correct t d name :
+  tbl_ok t d -> wf_name name = true -> blen d <= 16000 ->
+  exists bs t', write_name t (blen d) name = Ok (bs, t')
+    /\ 1 <= blen bs /\ blen bs <= 255
+    /\ tbl_ok t' (d ++ bs)
+    /\ forall x, ref_name (d ++ bs ++ x) (blen d) = Some (name_labels name, blen d + blen bs).
+Proof.
+  intros Ht Hwf Hsz. apply wf_name_inv in Hwf as [H1 H2].
+  destruct (write_labels_correct t d (name_labels name) Ht H1) as (bs & t' & Hw & Hb1 & Hb2 & Ht' & Hr);
+    [lia|].
+  exists bs, t'. unfold write_name.
+  split; [exact Hw|]. split; [exact Hb1|]. split; [lia|]. split; [exact Ht'|exact Hr].
+Qed.
+
+Lemma write_name_total t pos name :
+  wf_name name = true -> exists r, write_name t pos name = Ok r.
+Proof. intros H. apply wf_name_inv in H as [H _]. apply write_labels_total. exact H. Qed.
+
+(* ------------------------------------------------------------------------------------ *)
+(* 4. write_rdata / write_record                                                          *)
+(* ------------------------------------------------------------------------------------ *)
+
+Lemma Ok_pair_inj {A B} (a a' : A) (b b' : B) : Ok (a, b) = Ok (a', b') -> a = a' /\ b = b'.
+Proof. intros H. inversion H. split; reflexivity. Qed.
+
+Lemma ref_rdata_at_raw d ty off n :
+  ty <> 12 -> ty <> 5 -> ty <> 33 ->
+  ref_rdata_at d ty off n = match ref_bytes d off n with Some b => Some (FRaw b) | None => None end.
+Proof.
+  intros H1 H2 H3. unfold ref_rdata_at.
+  replace (ty =? 12) with false by (symmetry; apply N.eqb_neq; exact H1).
+  replace (ty =? 5) with false by (symmetry; apply N.eqb_neq; exact H2).
+  replace (ty =? 33) with false by (symmetry; apply N.eqb_neq; exact H3).
+  reflexivity.
+Qed.
+
+Lemma write_rdata_total t pos ty rd :
+  wf_rdata ty rd = true -> exists r, write_rdata t pos rd = Ok r.
+Proof.
+  destruct rd as [o|a|p w po h|x|c o|n b]; cbn [wf_rdata write_rdata]; intros H;
+    try discriminate; try (eexists; reflexivity).
+  - apply andb_true_iff in H as [_ H]. apply write_name_total. exact H.
+  - apply andb_true_iff in H as [_ H].
+    destruct (write_name_total t (pos + 6) h H) as [[nb t'] Hw]. rewrite Hw. cbn [bind]. eauto.
+Qed.
+
+Lemma write_rdata_props t1 d1 ty rd rdb t2 :
+  tbl_ok t1 d1 -> blen d1 <= 15000 -> wf_rdata ty rd = true ->
+  write_rdata t1 (blen d1) rd = Ok (rdb, t2) ->
+  tbl_ok t2 (d1 ++ rdb)
+  /\ ref_rdata_at (d1 ++ rdb) ty (blen d1) (blen rdb) = Some (view_rdata rd).
+Proof.
+  intros Ht Hsz Hwf Hw.
+  destruct rd as [o|a|p w po h|x|c o|n b]; cbn [wf_rdata write_rdata view_rdata] in *;
+    try discriminate.
+  - (* A / AAAA *)
+    inversion Hw; subst. split; [apply tbl_ok_app; exact Ht|].
+    apply andb_true_iff in Hwf as [_ Hwf].
+    assert (Hty : ty = 1 \/ ty = 28).
+    { apply orb_true_iff in Hwf as [H|H]; apply andb_true_iff in H as [H _];
+        apply N.eqb_eq in H; auto. }
+    rewrite ref_rdata_at_raw by lia. rewrite ref_bytes_end. reflexivity.
+  - (* PTR / CNAME *)
+    apply andb_true_iff in Hwf as [Hty Hwf].
+    destruct (write_name_correct t1 d1 a Ht Hwf) as (bs & t' & Hw' & _ & _ & Ht' & Hr); [lia|].
+    rewrite Hw' in Hw. inversion Hw; subst. split; [exact Ht'|].
+    unfold ref_rdata_at. rewrite Hty.
+    specialize (Hr []). rewrite app_nil_r in Hr. rewrite Hr, N.eqb_refl. reflexivity.
+  - (* SRV *)
+    apply andb_true_iff in Hwf as [Hwf Hh]. apply andb_true_iff in Hwf as [Hwf Hpo].
+    apply andb_true_iff in Hwf as [Hwf Hw2]. apply andb_true_iff in Hwf as [Hty Hp].
+    apply N.eqb_eq in Hty. apply N.ltb_lt in Hp, Hw2, Hpo. subst ty.
+    set (d2 := d1 ++ u16_bytes p ++ u16_bytes w ++ u16_bytes po).
+    assert (Hd2 : blen d2 = blen d1 + 6) by (subst d2; blen_norm; lia).
+    rewrite <- Hd2 in Hw.
+    destruct (write_name_correct t1 d2 h) as (bs & t' & Hw' & _ & _ & Ht' & Hr);
+      [apply tbl_ok_app; exact Ht|exact Hh|lia|].
+    rewrite Hw' in Hw. cbn [bind] in Hw. apply Ok_pair_inj in Hw as [E1 E2]. subst rdb t2.
+    replace (d1 ++ u16_bytes p ++ u16_bytes w ++ u16_bytes po ++ bs) with (d2 ++ bs)
+      by (subst d2; rewrite <- !app_assoc; reflexivity).
+    split; [exact Ht'|].
+    unfold ref_rdata_at.
+    change ((33 =? 12) || (33 =? 5)) with false. change (33 =? 33) with true. cbv iota.
+    specialize (Hr []). rewrite app_nil_r in Hr.
+    rewrite <- Hd2, Hr.
+    assert (H1 : ref_u16 (d2 ++ bs) (blen d1) = Some p).
+    { subst d2. rewrite <- !app_assoc. apply ref_u16_mid. exact Hp. }
+    assert (H2 : ref_u16 (d2 ++ bs) (blen d1 + 2) = Some w).
+    { subst d2. rewrite <- !app_assoc.
+      replace (blen d1 + 2) with (blen (d1 ++ u16_bytes p)) by (blen_norm; lia).
+      rewrite (app_assoc d1). apply ref_u16_mid. exact Hw2. }
+    assert (H3 : ref_u16 (d2 ++ bs) (blen d1 + 4) = Some po).
+    { subst d2. rewrite <- !app_assoc.
+      replace (blen d1 + 4) with (blen ((d1 ++ u16_bytes p) ++ u16_bytes w)) by (blen_norm; lia).
+      rewrite (app_assoc d1), (app_assoc (d1 ++ _)). apply ref_u16_mid. exact Hpo. }
+    rewrite H1, H2, H3.
+    replace (blen d2 + blen bs =? blen d1 + blen (u16_bytes p ++ u16_bytes w ++ u16_bytes po ++ bs))
+      with true by (symmetry; apply N.eqb_eq; blen_norm; lia).
+    reflexivity.
+  - (* TXT *)
+    inversion Hw; subst. split; [apply tbl_ok_app; exact Ht|].
+    apply andb_true_iff in Hwf as [Hty _]. apply N.eqb_eq in Hty.
+    rewrite ref_rdata_at_raw by lia. rewrite ref_bytes_end. reflexivity.
+Qed.
+
+Lemma class_bits_lt r : r_class r <? 32768 = true -> class_bits r < 65536.
+Proof.
+  intros H. apply N.ltb_lt in H. unfold class_bits. destruct (r_flush r); [|lia].
+  apply lor_lt_65536; lia.
+Qed.
+
+Definition ttl_ok (r : orec) (now : N) : bool :=
+  (now =? 0) || (now <=? or_created r + r_ttl (or_rr r) * 1000).
+
+Lemma ttl_written r now :
+  ttl_ok r now = true -> r_ttl (or_rr r) < 4294967296 ->
+  (if now =? 0 then Ok (r_ttl (or_rr r))
+   else remaining_ttl (or_created r) (r_ttl (or_rr r)) now) = Ok (written_ttl r now)
+  /\ written_ttl r now < 4294967296.
+Proof.
+  unfold ttl_ok, written_ttl, remaining_ttl. intros H Httl.
+  destruct (now =? 0) eqn:E; [split; [reflexivity|exact Httl]|].
+  cbn [orb] in H. apply N.leb_le in H.
+  replace (or_created r + r_ttl (or_rr r) * 1000 <? now) with false
+    by (symmetry; apply N.ltb_ge; exact H).
+  split; [reflexivity|]. apply N.mod_lt. lia.
+Qed.
+
+Lemma wf_orec_inv r :
+  wf_orec r = true ->
+  wf_name (or_name r) = true /\ r_type (or_rr r) < 65536 /\ class_bits (or_rr r) < 65536
+  /\ r_ttl (or_rr r) < 4294967296 /\ wf_rdata (r_type (or_rr r)) (r_data (or_rr r)) = true.
+Proof.
+  unfold wf_orec. intros H.
+  apply andb_true_iff in H as [H H5]. apply andb_true_iff in H as [H H4].
+  apply andb_true_iff in H as [H H3]. apply andb_true_iff in H as [H1 H2].
+  apply N.ltb_lt in H2, H4. apply class_bits_lt in H3. repeat split; assumption.
+Qed.
+
+(* (ii) correctness of write_record *)
+Theorem write_record_correct t d r now :
+  tbl_ok t d -> blen d <= MAX_MSG -> wf_orec r = true -> ttl_ok r now = true ->
+  exists w, write_record t (blen d) r now = Ok w /\
+    match w with
+    | None => True
+    | Some (bs, t') =>
+      tbl_ok t' (d ++ bs) /\ blen d + blen bs <= MAX_MSG /\ 11 <= blen bs
+      /\ ref_record (d ++ bs) (blen d)
+         = Some (view_rr r (written_ttl r now), blen d + blen bs)
+    end.
+Proof.
+  unfold MAX_MSG. intros Ht Hsz Hwf Hnow.
+  apply wf_orec_inv in Hwf as (Hname & Hty & Hcl & Httl & Hrd).
+  destruct (ttl_written r now Hnow Httl) as [Hw_ttl Httl'].
+  unfold write_record.
+  destruct (write_name_correct t d (or_name r) Ht Hname) as (nb & t1 & Hw1 & Hn1 & Hn2 & Ht1 & Hr1);
+    [lia|].
+  rewrite Hw1. cbn [bind]. rewrite Hw_ttl. cbn [bind].
+  set (ttl := written_ttl r now) in *.
+  set (fixed := u16_bytes (r_type (or_rr r)) ++ u16_bytes (class_bits (or_rr r)) ++ u32_bytes ttl).
+  destruct (write_rdata_total t1 (blen d + blen nb + 10) _ _ Hrd) as [[rdb t2] Hw2].
+  rewrite Hw2. cbn [bind].
+  set (bs := nb ++ fixed ++ u16_bytes (blen rdb mod 65536) ++ rdb).
+  assert (Hbs : blen bs = blen nb + 10 + blen rdb) by (subst bs fixed; blen_norm; lia).
+  unfold MAX_MSG.
+  destruct (8972 <? blen d + blen bs) eqn:Efit; [exists None; split; [reflexivity|exact I]|].
+  apply N.ltb_ge in Efit.
+  exists (Some (bs, t2)). split; [reflexivity|].
+  assert (Hrdl : blen rdb mod 65536 = blen rdb) by (apply N.mod_small; lia).
+  set (d1 := (d ++ nb) ++ fixed ++ u16_bytes (blen rdb mod 65536)).
+  assert (Hd1 : blen d1 = blen d + blen nb + 10) by (subst d1 fixed; blen_norm; lia).
+  assert (Hdbs : d ++ bs = d1 ++ rdb).
+  { subst d1 bs. rewrite <- !app_assoc. reflexivity. }
+  rewrite <- Hd1 in Hw2.
+  destruct (write_rdata_props t1 d1 _ _ _ _ ltac:(subst d1; apply tbl_ok_app; exact Ht1)
+              ltac:(lia) Hrd Hw2) as [Ht2 Hrdv].
+  split; [rewrite Hdbs; exact Ht2|]. split; [exact Efit|]. split; [lia|].
+  unfold ref_record.
+  specialize (Hr1 (fixed ++ u16_bytes (blen rdb mod 65536) ++ rdb)). fold bs in Hr1.
+  rewrite Hr1.
+  replace (blen d + blen nb) with (blen (d ++ nb)) by (blen_norm; lia).
+  assert (Hd' : d ++ bs = (d ++ nb) ++ fixed ++ u16_bytes (blen rdb mod 65536) ++ rdb).
+  { subst bs. rewrite <- !app_assoc. reflexivity. }
+  destruct (fixed_fields (d ++ nb) (r_type (or_rr r)) (class_bits (or_rr r)) ttl
+              (blen rdb mod 65536) rdb Hty Hcl Httl' ltac:(lia)) as (F1 & F2 & F3 & F4).
+  fold fixed in F1, F2, F3, F4. rewrite <- Hd' in F1, F2, F3, F4.
+  rewrite F1, F2, F3, F4.
+  replace (blen (d ++ nb) + 10) with (blen d1) by (rewrite Hd1; blen_norm; lia).
+  rewrite Hrdl. rewrite Hdbs, Hrdv.
+  unfold view_rr. f_equal. f_equal. rewrite Hd1. lia.
+Qed.
+
+Lemma write_record_total t pos r now :
+  wf_orec r = true -> ttl_ok r now = true -> exists w, write_record t pos r now = Ok w.
+Proof.
+  intros Hwf Hnow.
+  apply wf_orec_inv in Hwf as (Hname & Hty & Hcl & Httl & Hrd).
+  destruct (ttl_written r now Hnow Httl) as [Hw_ttl _].
+  unfold write_record.
+  destruct (write_name_total t pos _ Hname) as [[nb t1] Hw1]. rewrite Hw1. cbn [bind].
+  rewrite Hw_ttl. cbn [bind].
+  destruct (write_rdata_total t1 (pos + blen nb + 10) _ _ Hrd) as [[rdb t2] Hw2].
+  rewrite Hw2. cbn [bind].
+  match goal with |- context [if ?c then _ else _] => destruct c end; eauto.
+Qed.
